@@ -49,6 +49,9 @@ extern std::atomic<uint64_t> g_gate_hits;        // allocator gate (yield build)
 extern std::atomic<uint64_t> g_libc_yield_points;
 extern __thread const char *g_gate_last;
 extern const bool g_yield_build;
+extern const bool g_instr_build;                 // library compiled with -finstrument-functions: re-entry of an active library function is counted
+extern std::atomic<uint64_t> g_recursion_hits;
+extern void *volatile g_recursion_fn, *volatile g_recursion_outer;
 //  // sink of the calling task for text the library prints
 
 // exact-size media blocks
